@@ -8,6 +8,7 @@
 import GojaModel.Base.Proto
 import GojaModel.C20.Model
 import GojaModel.C20.Ref
+import GojaModel.C20.Pre
 namespace GojaModel.C20.Driver
 open GojaModel.Proto GojaModel.C20
 
@@ -358,6 +359,15 @@ def opRoutes : String :=
     | .linearSingle => 's'
     | _ => '?')
 
+/-- pre16 <runes as dot-separated hex>: `convertRegexpToUtf16` of a pattern source, the code units the converted
+literal pattern matches (mechanism) and the code units the original one matches per ECMA-262 (spec); "x" = outside
+the literal fragment. -/
+def opPre16 (f : List String) : String :=
+  let runes := if f.getD 1 "-" == "-" then [] else ((f.getD 1 "").splitOn ".").map (fun x => (parseHex? x).getD 0)
+  let conv := Pre.convert16 runes
+  let show_ := fun (o : Option (List Nat)) => match o with | some l => hx l | none => "x"
+  s!"pre16 conv={joinWith "." (conv.map hexOf)} mech={show_ (Pre.denote conv)} spec={show_ (Pre.denote runes)}"
+
 def step (line : String) : String :=
   let f := words line
   match f.getD 0 "" with
@@ -368,6 +378,7 @@ def step (line : String) : String :=
   | "pred" => opPred f
   | "iter" => opIter f
   | "routes" => opRoutes
+  | "pre16" => opPre16 f
   | "ref" => opRef f
   | _ => "unknown-op"
 
